@@ -5,6 +5,7 @@ pub mod tokh;
 pub mod c01;
 pub mod c03;
 pub mod c04;
+pub mod c07;
 pub mod c10;
 pub mod c11;
 pub mod c12;
@@ -30,6 +31,7 @@ pub fn run(ctx: &Ctx) -> ! {
         "C18" => e2::main(ctx, e2::Prop::C18),
         "C20" => c20::main(ctx),
         "C09" => c01::main(ctx, true),
+        "C07" => c07::main(ctx),
         "C10" => c10::main(ctx),
         "C11" => c11::main(ctx),
         "C12" => c12::main(ctx),
@@ -50,6 +52,7 @@ pub fn replay(ctx: &Ctx, v: &serde_json::Value, witness: &str) {
         "C18" => e2::replay(ctx, e2::Prop::C18, v),
         "C20" => e2::replay(ctx, e2::Prop::C20, v),
         "C09" => c01::replay(ctx, v, true),
+        "C07" => c07::replay(ctx, v),
         "C10" => c10::replay(ctx, v),
         "C11" => c11::replay_with(ctx, witness, &c11::NoMonitor),
         "C12" => c12::replay(ctx, witness),
